@@ -507,6 +507,11 @@ def h17_map(i0: int, s0: str, present_a: bool, present_b: bool) -> bool:
     # template with mapping keys a and b; dict literal with optional extra key
     conv_a, conv_b = data["convs"]
     template = f"%(a){conv_a} %(b){conv_b}"
+    if data.get("pct"):
+        # an escaped percent sign consumes no argument: nothing is "combined" with the keyed specifiers
+        template = "100%% " + template + "%%"
+    if data.get("mix"):
+        template = "%s " + template
     f = PercentFormatString.from_pattern(template)
     d = {}
     if present_a:
@@ -516,6 +521,10 @@ def h17_map(i0: int, s0: str, present_a: bool, present_b: bool) -> bool:
     if data["extra"]:
         d["zz"] = 1
     errs = list(f.lint()) + list(f.accept(KnownValue(d), get_checker()))
+    if data.get("mix"):
+        # keyed and unkeyed specifiers in one template: CPython formats it, pyanalyze's documented stricter rule
+        # reports it - as a diagnostic, not by raising
+        return fin(len(errs) > 0)
     c_ok = present_a and present_b
     if c_ok:
         need = {"d": "num", "s": "any", "c": "chr"}[conv_a]
@@ -955,6 +964,12 @@ def cases(tier: str, seed: int) -> List[Case]:
                 for extra in (0, 1):
                     out.append(Case("h17_map", f"map:{conv_a}{conv_b}:{a_kind}:{extra}",
                                     {"convs": [conv_a, conv_b], "a_kind": a_kind, "extra": extra}, timeout=60))
+                    if conv_b == "d":
+                        out.append(Case("h17_map", f"map:{conv_a}{conv_b}:{a_kind}:{extra}:pct",
+                                        {"convs": [conv_a, conv_b], "a_kind": a_kind, "extra": extra, "pct": 1}, timeout=60))
+                        if not extra:
+                            out.append(Case("h17_map", f"map:{conv_a}{conv_b}:{a_kind}:{extra}:mix",
+                                            {"convs": [conv_a, conv_b], "a_kind": a_kind, "extra": extra, "mix": 1}, timeout=60))
     toks = list(SF_FIELDS)
     for nf in (1, 2) if quick else (1, 2, 3):
         for fields in itertools.product(toks, repeat=nf):
